@@ -28,6 +28,17 @@ type entCase struct {
 
 const sentinel = uint64(0xA5C3F00F5A3C0FF0)
 
+// geoLen: length of the block of family geo:r:q10:k:base (see entData)
+func geoLen(r, q10, k, base int) int {
+	n := min(r, 250)
+	cnt := float64(base)
+	for j := 0; j < k && j < 6+250-r; j++ {
+		n += int(cnt)
+		cnt = cnt * float64(q10) / 10
+	}
+	return min(n, 1<<20)
+}
+
 func entData(c entCase) []byte {
 	rnd := rand.New(rand.NewSource(c.Seed))
 	var k, r, d int
@@ -47,6 +58,28 @@ func entData(c entCase) []byte {
 		for i := 0; i < r && i < c.Len; i++ {
 			b[rnd.Intn(c.Len)] = byte(i)
 		}
+		return b
+	}
+	var q10, base int
+	if n, _ := fmt.Sscanf(c.Fam, "geo:%d:%d:%d:%d", &r, &q10, &k, &base); n == 4 && k > 0 {
+		// an exact histogram: r symbols that occur once under a geometric ladder of k dominant symbols (counts base, base*q, base*q^2
+		// ...; q = q10/10), the dominant counts given to symbols in an order that is not the order of their values; the block is the
+		// shuffled multiset (its length is what the histogram gives, c.Len is ignored). Such histograms drive prefix-code builders
+		// into their length-limiting paths.
+		var b []byte
+		for i := 0; i < r && i < 250; i++ {
+			b = append(b, byte(i))
+		}
+		cnt := float64(base)
+		order := rnd.Perm(k)
+		for j := 0; j < k && j < 6+250-r; j++ {
+			sym := byte(255 - order[j]%6 - 6*(j/6))
+			for x := 0; x < int(cnt) && len(b) < 1<<20; x++ {
+				b = append(b, sym)
+			}
+			cnt = cnt * float64(q10) / 10
+		}
+		rnd.Shuffle(len(b), func(i, j int) { b[i], b[j] = b[j], b[i] })
 		return b
 	}
 	var q, seg int
@@ -258,6 +291,24 @@ func cmdEntropy(args []string) int {
 		}
 		for ri, r := range residues {
 			add(codec, c+r, []string{"text", "skew", "alpha:64"}[(ci+ri)%3], []int{0, 3, 8}[(ci+ri)%3])
+		}
+	}
+	// exact histograms: r rare symbols under a geometric ladder of dominant ones (prefix-code length limiting, table scaling)
+	for _, rr := range []int{40, 100, 130, 200, 245} {
+		for _, q10 := range []int{12, 14, 15, 16, 17, 18, 20, 25} {
+			for _, kk := range []int{3, 5, 8, 12} {
+				for bi, bb := range []int{rr, 2 * rr, rr / 2} {
+					if !*thorough && bi == 2 {
+						continue
+					}
+					fam := fmt.Sprintf("geo:%d:%d:%d:%d", rr, q10, kk, bb)
+					for ci, codec := range []string{"HUFFMAN", "ANS0", "RANGE", "ANS1", "FPAQ"} {
+						if ci == 0 || *thorough || (rr+q10+kk+ci)%4 == 0 {
+							add(codec, geoLen(rr, q10, kk, bb), fam, []int{0, 3, 8}[(rr+q10+kk+ci)%3])
+						}
+					}
+				}
+			}
 		}
 	}
 	if *thorough {
